@@ -220,6 +220,18 @@ def run(chk):
         res = tlc.run_tlc("MethodGen", cfg=cfg, workers=4, timeout=1800)
         chk.add_tlc(res)
         methods += [from_gen(g) for g in res.json_lines("GEN")]
+    # statement ids are unique within a phase only: every generated phase A next to a phase with the SAME ids and no
+    # edges (before it and after it in the phases mapping), and next to a copy of itself
+    shared = []
+    for m in methods[::1 if not chk.quick else 2]:
+        a = m["phases"][0]
+        if not any(s["deps"] or s["flag"] or s["switch"] for s in a["stmts"]):
+            continue
+        clean = lambda nm: {"name": nm, "stmts": [{"id": s["id"], "deps": [], "switch": "", "flag": ""} for s in a["stmts"]]}   # noqa: E731
+        shared.append({"phases": [a, clean("Z")]})
+        shared.append({"phases": [clean("0"), a]})
+        shared.append({"phases": [a, dict(a, name="A2")]})
+    methods += shared
     n_gen = len(methods)
     methods += [random_method(rng) for _ in range(1500 if chk.quick else 30000)]
     chk.stage("generate")
